@@ -270,6 +270,12 @@ def run(chk):
                             {"project": p, "expanded": q})
         else:
             chk.nontrivial.add(projcheck.phash(p) + kind)
+    # defaults of an IMPORTED lazefile (reached through build/imports/<name> when symlinked): after the file is edited, modules under them
+    # must behave as the defaults now written — the same statements a load with an empty build directory produces (oracle only: imports
+    # are outside the model)
+    from . import c08
+    for job, out in common.parallel_map(c08.import_worker, [(chk.seed + 177, i) for i in range(6 if chk.tier == "quick" else 120)]):
+        c08.judge_import(chk, job, out, prefix="loader")
     chk.assumptions = ["inlining is only attempted for defaults that can be written inline (plain-string dependency entries, no ${relpath}/${srcdir}/${root} in default env values)"]
     return chk.finish()
 
